@@ -103,7 +103,7 @@ def explore_case(case, st):
 # ---- target-file syntax failures that involve no peer at all: out-of-range port, blank / whitespace lines
 def syntax_cases():
     out = []
-    for bad in ('host1.example:0', 'host1.example:65536', 'host1.example:99999', '', '   ', '\t'):
+    for bad in ('host1.example:0', 'host1.example:65536', 'host1.example:99999', 'host1.example:22x', 'host1.example:ssh', '# note: staging', '', '   ', '\t'):
         for pos in (0, 1):
             for fmt in ('text', 'json'):
                 out.append((bad, pos, fmt))
@@ -122,7 +122,7 @@ def check_syntax_case(case, st):
     st.execution(res.world, outcome=('syntax', res.status), root=('syntax', case), nontrivial=('syntax', case))
     blank = bad.strip() == ''
     ok_report = ('aes256-gcm@openssh.com' in res.stdout)
-    kind = 'blank-line' if blank else 'port-out-of-range'
+    kind = 'blank-line' if blank else 'port-out-of-range' if bad.rsplit(':', 1)[-1].isdigit() else 'unparsable-entry'
     if not ok_report:
         st.violation('healthy-target-lost-report:%s' % kind, {'lines': lines, 'fmt': fmt, 'status': res.status, 'stdout_tail': res.stdout[-400:]})
     if blank:
@@ -270,9 +270,43 @@ def check_dup_case(case, st):
         st.violation('repeated-target:exit-status', dict(d, expected=exp))
 
 
+# ---- JSON on a stdout that can only carry ASCII (LANG=C, PYTHONIOENCODING=ascii) with targets and algorithm names that are not ASCII
+def ascii_cases():
+    return [('ascii', threads, order, opt) for threads in (1, 2) for order in (0, 1) for opt in ('-j', '-jj')]
+
+
+def check_ascii_case(case, st):
+    import socket as _s
+    from mc import runner, vnet, peer as P
+    _t, threads, order, opt = case
+    odd = P.Server(label='odd', kex=['curve25519-sha256'], key=['ssh-ed25519'], enc=['aes256-ctr', 'aes256-ctr@\u0433\u043e\u0441\u0442.example'], mac=['hmac-sha2-256'])
+    servers = {('10.0.0.1', 22): MT.ALL['CLEAN']('c'), ('10.0.1.1', 22): odd}
+    resolver = {'host0.example': [(int(_s.AF_INET), '10.0.0.1')], 'b\u00fccher.example': [(int(_s.AF_INET), '10.0.1.1')], 'nosuch.example': _s.gaierror(-2, 'Name or service not known')}
+    lines = ['host0.example', 'b\u00fccher.example', 'nosuch.example']
+    if order:
+        lines.reverse()
+    w = vnet.World(servers=servers, resolver=resolver)
+    res = runner.run_cli(['-n', '--skip-rate-test', opt, '-T', MT.targets_file(lines), '--threads', str(threads)], w, stdout_mode='ascii')
+    st.execution(res.world, outcome=('ascii', res.status, opt), root=case, nontrivial=case)
+    d = {'lines': lines, 'threads': threads, 'option': opt, 'status': res.status, 'exc': res.exc, 'stdout_tail': res.stdout[-300:], 'stderr_tail': res.stderr[-300:]}
+    if res.hang or res.exc:
+        st.violation('ascii-stdout:hang-or-escaped-exception', d)
+        return
+    try:
+        doc = json.loads(res.stdout)
+        if not isinstance(doc, list) or len(doc) != 3:
+            st.violation('ascii-stdout:json-array-length', d)
+    except ValueError:
+        st.violation('ascii-stdout:json-not-one-document', d)
+    if res.status != 1:
+        st.violation('ascii-stdout:exit-status', dict(d, expected=1))
+
+
 def work(chunk, st):
     for case in chunk:
-        if case[0] == 'dup':
+        if case[0] == 'ascii':
+            check_ascii_case(case, st)
+        elif case[0] == 'dup':
             check_dup_case(case, st)
         elif case[0] == 'form':
             check_form_case(case, st)
@@ -318,6 +352,7 @@ def cases(tier):
     out += syntax_cases()
     out += form_cases()
     out += dup_cases()
+    out += ascii_cases()
     return out
 
 
